@@ -14,7 +14,7 @@ CHECKS = {
          "Every archive of an own C01-style batch (~190 quick / ~6200 thorough) is parsed by vlib/src/agcref.rs, which shares no code with ragc, recovers all samples, and asserts the addressing rules the statement lists. A change applied consistently to ragc's writer and reader keeps C01 green and fails here.",
          "The independent decoder is my reading of the AGC v3 rules; there is no C++ AGC binary in the sandbox to validate it against.",
          "DESIGN.md §6 C02"),
- "C03": ("exploration", "proptest name/descriptor tables through the codec (hook H1) differentially against an independent decoder; batch layer through an Archive file; end to end through ragc create and the listings",
+ "C03": ("exploration", "proptest name/descriptor tables through the codec (hook H1) differentially against an independent decoder; batch layer through an Archive file; end to end through ragc create and the listings; thorough tier adds a coverage-guided libFuzzer campaign (cargo-fuzz target fz_codec, same oracle inside the target)",
          "6*10^4 (quick) / 2*10^6 (thorough) catalogues whose consecutive names share / change fields (run markers around 100/200, empty fields, tabs, changing field counts) and whose in-group ids repeat, go back, return to 0 or jump; up to 129 samples in 1..59-sample codec batches and in real 50-sample archive batches; ~60 / 3000 created archives for the listing layer.",
          "Group ids <= 100000, ids <= 10^6; names unique and NUL-free. The independent decoder defines the byte format.",
          "DESIGN.md §6 C03"),
@@ -38,11 +38,11 @@ CHECKS = {
          "48 (quick) / 800 (thorough) archives x 1420 enumerated sequences + random sequences of length 4..12, a quarter of the archives with two metadata batches; half of the cases also run 2..8 cloned handles concurrently.",
          "Errors are compared as 'is an error'. Thread interleavings of the cloned readers are whatever the OS schedules (the handles share no state by construction; a violation needs shared state, which any schedule exposes as a changed value).",
          "DESIGN.md §6 C08"),
- "C09": ("exploration", "exhaustive small-alphabet pairs + proptest edit-script-derived (reference, target) pairs; round-trip oracle plus independent LZ-text decoder",
+ "C09": ("exploration", "exhaustive small-alphabet pairs + proptest edit-script-derived (reference, target) pairs; round-trip oracle plus independent LZ-text decoder; thorough tier adds a coverage-guided libFuzzer campaign (cargo-fuzz target fz_lz, same oracle inside the target)",
          "All pairs with |ref|,|target| <= 6 over {A,C,N} (1.2*10^6), all targets <= 5 over {A,C,G,T,N,30} against fixed references, N runs 1..8 at all offsets are enumerated; 3*10^6 (quick) / 3*10^7 (thorough) structured random pairs up to 2 kb / 40 kb exercise matches, back-extension, '!' rewriting, elided lengths, N runs, code 30.",
          "min match >= 5; the independent decoder defines the LZ-diff V2 text.",
          "DESIGN.md §6 C09"),
- "C10": ("exploration", "exhaustive short contigs + proptest contigs with splitter sets built from their own k-mers; positional tiling oracle from the statement",
+ "C10": ("exploration", "exhaustive short contigs + proptest contigs with splitter sets built from their own k-mers; positional tiling oracle from the statement; thorough tier adds a coverage-guided libFuzzer campaign (cargo-fuzz target fz_seg, same oracle inside the target)",
          "All contigs <= 9 over {A,C,N} for k<=3 (both entry points) are enumerated; 2*10^6 (quick) / 3*10^7 (thorough) random cases with k 1..32, dense / sparse / forced-last-k / adjacent splitters.",
          "Which splitter occurrences are used is deliberately not asserted (not part of the statement).",
          "DESIGN.md §6 C10"),
@@ -50,11 +50,11 @@ CHECKS = {
          "2.4*10^4 (quick) / 3*10^5 (thorough) references with repeats, duplicated contigs, N runs; a quarter of them also through the streaming / first-sample file variants (plain and gzip) and rayon pools of 1/2/4/16 threads.",
          "FASTA files passed to the file-based variants contain no record without bases.",
          "DESIGN.md §6 C11"),
- "C12": ("exploration", "exhaustive short byte strings per symbol range + proptest strings on both sides of the repetitiveness threshold; inverse-function and independent-unpacker oracles",
+ "C12": ("exploration", "exhaustive short byte strings per symbol range + proptest strings on both sides of the repetitiveness threshold; inverse-function and independent-unpacker oracles; thorough tier adds a coverage-guided libFuzzer campaign (cargo-fuzz target fz_pack, same oracle inside the target)",
          "2.2*10^5 strings enumerated (all lengths/remainders for widths 4/3/2/1, max-symbol boundaries 3/4 5/6 15/16 at lengths 0..40); 2.4*10^4 (quick) / 4*10^5 (thorough) random strings up to 100 kB through both reference markers, all levels, and fresh-vs-reused compression contexts.",
          "The zstd crate's decoder is the reference for ZSTD frames.",
          "DESIGN.md §6 C12"),
- "C13": ("exploration", "model-based (stateful) testing: generated operation histories vs a sequential container model and an independent footer parser; integer codec vs the format rule",
+ "C13": ("exploration", "model-based (stateful) testing: generated operation histories vs a sequential container model and an independent footer parser; integer codec vs the format rule; thorough tier adds a coverage-guided libFuzzer campaign (cargo-fuzz target fz_arc, same oracle inside the target)",
          "6*10^4 (quick) / 10^6 (thorough) histories of register / add / add-buffered / flush / set-raw-size with metadata at every byte-length boundary, reopen, sequential and random-access reads; 2*10^6+ integer magnitudes.",
          "Buffered parts use registered stream ids; file offsets stay < 2^32 (magnitudes up to 2^64-1 are covered for the integer codec and metadata only).",
          "DESIGN.md §6 C13"),
@@ -82,7 +82,7 @@ CHECKS = {
          "192 (quick) / 3000 (thorough) collections x (plain / gzip / multi-member gzip with boundaries anywhere, widths 1..100000 or unwrapped, CRLF, case, final newline) plus one-file vs per-sample-files for PanSN collections.",
          "A byte difference is only blamed on presentation when two runs of the same presentation agree.",
          "DESIGN.md §6 C19"),
- "C20": ("exploration", "exhaustive enumeration of small k / short strings + proptest random strings vs naive string model",
+ "C20": ("exploration", "exhaustive enumeration of small k / short strings + proptest random strings vs naive string model; thorough tier adds a coverage-guided libFuzzer campaign (cargo-fuzz target fz_kmer, same oracle inside the target)",
          "All 4^k windows for k<=8 and all strings up to length k+3 over {A,C,G,T,N} for small k are enumerated; k up to 32 (weighted to 31/32) is sampled with 3*10^6 (quick) / 4*10^7 (thorough) random strings. Exploration is the right level: the property is a pure function law and the risky region (k=32, shift 0) is reached by construction.",
          "Trusts the naive model in vlib/src/naive.rs (string reversal, left-aligned 2-bit packing). Callers' reset-at-non-ACGT protocol is part of the checked behaviour.",
          "DESIGN.md §6 C20"),
@@ -131,6 +131,8 @@ def main():
         "engines": [
             {"name": "vcheck", "path": "harness/vcheck", "serves_properties": sorted(CHECKS.keys()),
              "kind_free_text": "proptest TestRunner driven from a binary (fixed seed from VERIF_SEED, fixed case counts, shrinking), exhaustive sweeps of small sub-spaces, sharded over worker processes; oracles and reference models in harness/vlib"},
+            {"name": "vfuzz", "path": "harness/fuzz", "serves_properties": ["C03", "C09", "C10", "C12", "C13", "C20"],
+             "kind_free_text": "cargo-fuzz / libFuzzer targets (nightly, sanitizer coverage) that decode bytes into the structured case types of vlib and call the same oracle functions; started by the vcheck shards in the thorough tier with fixed -runs/-seed on fresh corpora (odd shards seeded, even shards empty); a stopping input is re-judged by the release oracle, minimised, and saved as a structured replay case"},
         ],
         "checks": checks,
         "not_applicable": na,
